@@ -52,6 +52,7 @@ type DMapOpts struct {
 }
 
 type Member struct {
+	Abrupt bool
 	DB     *olric.Olric
 	Emb    *olric.EmbeddedClient
 	Addr   string
@@ -109,10 +110,12 @@ func (cl *Cluster) newConfig() *config.Config {
 	mc.BindAddr = "127.0.0.1"
 	mc.BindPort = 0
 	if o.FastGossip {
-		mc.ProbeInterval = 50 * time.Millisecond
-		mc.ProbeTimeout = 25 * time.Millisecond
-		mc.SuspicionMult = 1
-		mc.GossipInterval = 20 * time.Millisecond
+		// fast enough to notice a stopped member within a couple of seconds, slow enough not to suspect a live
+		// one on a loaded machine
+		mc.ProbeInterval = 150 * time.Millisecond
+		mc.ProbeTimeout = 120 * time.Millisecond
+		mc.SuspicionMult = 2
+		mc.GossipInterval = 30 * time.Millisecond
 		mc.PushPullInterval = 2 * time.Second
 	}
 	c.MemberlistConfig = mc
@@ -294,12 +297,28 @@ func (cl *Cluster) stableNow() (bool, string) {
 		nb = want - 1
 	}
 	m := live[0]
+	liveNames := map[string]bool{}
+	for _, x := range live {
+		liveNames[x.Addr] = true
+	}
 	for p := uint64(0); p < m.Cfg.PartitionCount; p++ {
+		for _, o := range m.DB.VerifPrimary().PartitionByID(p).Owners() {
+			if !liveNames[o.Name] {
+				return false, fmt.Sprintf("partition %d still lists the stopped member %s as owner", p, o.Name)
+			}
+		}
+		for _, o := range m.DB.VerifBackup().PartitionByID(p).Owners() {
+			if !liveNames[o.Name] {
+				return false, fmt.Sprintf("partition %d still lists the stopped member %s as backup", p, o.Name)
+			}
+		}
 		if c := m.DB.VerifPrimary().PartitionByID(p).OwnerCount(); c != 1 {
 			return false, fmt.Sprintf("partition %d has %d owners", p, c)
 		}
-		if c := m.DB.VerifBackup().PartitionByID(p).OwnerCount(); c != nb {
-			return false, fmt.Sprintf("partition %d has %d backups, want %d", p, c, nb)
+		// after a fail-over a member that still holds backup data (possibly the new primary owner itself) stays
+		// listed in addition to the min(R,N)-1 current backup owners
+		if c := m.DB.VerifBackup().PartitionByID(p).OwnerCount(); c < nb {
+			return false, fmt.Sprintf("partition %d has %d backups, want at least %d", p, c, nb)
 		}
 	}
 	return true, ""
